@@ -101,8 +101,9 @@ claim("C13", "E3", "exhaustive scope x source-layout enumeration + hypothesis fo
       "variants) are enumerated against the real SourcedStateBackend/RootSourcedStateBackend with recording stub "
       "transport and local operations; the expected scope of a source is the generator's label, never the code's "
       "classification; longer lists by hypothesis. Two root-scope signatures are known findings (C13-F1, C13-F2).",
-      "Stub transport and stub local backend substituted through the class attributes as in StatesPoolTest; the real "
-      "TransferOps/ssh layer is not exercised.")
+      "Stub transport and stub local backend substituted through the class attributes as in StatesPoolTest; an "
+      "additional generated part runs the real QCOW2ImageTransfer/TransferOps with fake end-point-tagged remote "
+      "sessions (login, remote hash, scp and qemu-img replaced) for sources behind shared gateways.")
 
 claim("C10", "E1", "exhaustive should_rerun decision table + hypothesis generated outcome/retry/replay histories vs reference rule",
       "A 630k-row table of TestNode.should_rerun on real parsed nodes (max_tries x recorded status sequences x rerun/stop "
